@@ -209,6 +209,7 @@ def check_fold(ctx, repo: Repo, pid: str):
             ctx.inconclusive("FOLD", f"{tag}.copy", "fold store M[i][opp(j)] = M[i][j] not recognised", where, witness=f"{len(copies)} stores into {M}")
 
     # ---------------- extraction with one index list
+    upper_method = None
     ex_names = set()
     n_ex = 0
     for st in ast.walk(body):
@@ -229,10 +230,16 @@ def check_fold(ctx, repo: Repo, pid: str):
                   witness=f"index names {sorted(ex_names)}, {n_ex} uses")
         nm = next(iter(ex_names))
         defs = [a for a in ast.walk(body) if isinstance(a, ast.Assign) and isinstance(a.targets[0], ast.Name) and a.targets[0].id == nm]
-        ctx.check(bool(defs) and "_get_upper_indices" in src(defs[-1].value), "FOLD", f"{tag}.extract.upper", "the extraction index list is "
-                  "self._get_upper_indices()", where, norm_stmt(defs[-1]) if defs else "", witness=src(defs[-1].value) if defs else "undefined")
+        if defs and isinstance(defs[-1].value, ast.Call) and isinstance(defs[-1].value.func, ast.Attribute) and \
+                isinstance(defs[-1].value.func.value, ast.Name) and defs[-1].value.func.value.id == "self":
+            upper_method = defs[-1].value.func.attr
+        if upper_method is None:
+            ctx.inconclusive("FOLD", f"{tag}.extract.upper", "origin of the extraction index list not recognised", where,
+                             witness=src(defs[-1].value) if defs else "undefined")
+        else:
+            ctx.ok("FOLD", f"{tag}.extract.upper", f"the extraction index list is self.{upper_method}() (analysed below)", where, norm_stmt(defs[-1]))
     # ---------------- upper indices: ascending, positive predicate over my_array
-    gu = ci.find_method("_get_upper_indices")
+    gu = ci.find_method(upper_method) if (n_ex and upper_method) else ci.find_method("_get_upper_indices")
     if gu is None:
         raise AnalysisError("anchor vanished: HalfRotobjVoronoi._get_upper_indices")
     ctx.analysed(gu)
@@ -242,13 +249,21 @@ def check_fold(ctx, repo: Repo, pid: str):
     ctx.instance("ORD")
     ctx.check(rk is not None and rk.order == ASC, "ORD", f"{tag}.upper.sorted", "upper indices are returned in ascending order", gu.where,
               witness=str(rk))
+    from ..astutil import hemisphere_predicates
+    preds = hemisphere_predicates(repo)
     comps = [n for n in ast.walk(gu.node) if isinstance(n, ast.ListComp)]
-    okp = False
+    okp = None if not preds else False
     for c in comps:
         for g in c.generators:
             for cond in g.ifs:
-                if isinstance(cond, ast.Call) and isinstance(cond.func, ast.Name) and cond.func.id == "q_in_upper_sphere":
-                    okp = "my_array" in src(g.iter)
+                neg = False
+                while isinstance(cond, ast.UnaryOp) and isinstance(cond.op, ast.Not):
+                    neg, cond = not neg, cond.operand
+                if isinstance(cond, ast.Call) and isinstance(cond.func, ast.Name) and cond.func.id in preds:
+                    okp = "my_array" in src(g.iter) and (preds[cond.func.id] == 1) != neg
     ctx.instance("SELECT")
-    ctx.check(okp, "SELECT", f"{tag}.upper.predicate", "upper indices are the rows of the double cover that satisfy q_in_upper_sphere "
+    if okp is None:
+        ctx.inconclusive("SELECT", f"{tag}.upper.predicate", "no canonical-hemisphere predicate recognised in molgri/space/utils.py", gu.where)
+    else:
+      ctx.check(okp, "SELECT", f"{tag}.upper.predicate", "upper indices are the rows of the double cover that satisfy q_in_upper_sphere "
               "(positive polarity)", gu.where, witness=src(gu.node)[:200])
